@@ -429,6 +429,12 @@ def doc_sem(program, bid=None):
             factors.append([len(fd["levels"]), su, None])
         else:
             deps, width, stride, start = window_params(program, fd)
+            if su > 1 and any(bd.sustain.get(d, 1) != su for d in deps):
+                # Reading decision 10 / oracle limitation: Sem reads the window of a held (sustained) derived
+                # factor at the start of each group only; when a dependency is not held with it (a crossed
+                # derived factor of a Nest's outer block over uncrossed factors) the definition has to hold
+                # in every trial, which Sem does not express.  Such programs are outside the oracle.
+                raise Unsupported("held derived factor over dependencies that are not held with it: outside the reference semantics")
             tabs = accepted_tables(program, fd)
             enc = []
             for t in tabs:
